@@ -42,7 +42,7 @@ CLAIMED["C14"] = {
             "Bringing find_t under contract showed that the contract the step proof had ASSUMED for it was false (tie-break drift, one tolerance per near-tied row): a genuine defect, repaired (fix d8d6f69) and pinned by a bounded search over near-tie chains and pseudo-random tableaux on the real code. "
             "Three parts of the start-up are proved as statement slices: the phase-one tableau (U14.ph1: artificial unit columns form the starting basis; on the solution set of the extended system the objective row measures exactly the sum of the artificial variables), "
             "the restoring of the objective after phase one (U14.ph2, a slice nested in a match arm: on the solution set the restored row minus the recorded value is the model's objective row, and basic variables get reduced cost zero when the basis is canonical), "
-            "the selection of one candidate per row (U14.rows: in row order, the first candidate of every row that has one; with as many entries as rows, entry k belongs to row k), the candidates for the direct start (U14.pick: a listed column has exactly one entry beyond the tolerance, positive, recorded with its own row and value), and the direct start itself (U14.canon, nested in the if-branch of into_tableau, with divide_matrix_row_by: scaling rows by their singleton entries keeps the solution set and the same objective identity holds); "
+            "the selection of one candidate per row (U14.rows: in row order, the first candidate of every row that has one; with as many entries as rows, entry k belongs to row k), the basis vector handed to the tableau (U14.basis: entry k is the column of the k-th selected candidate; ghost lemma lemma_basis_of_rows over the three contracts: the basic column of row k is a positive singleton of row k and no column is basic twice), the candidates for the direct start (U14.pick: a listed column has exactly one entry beyond the tolerance, positive, recorded with its own row and value), and the direct start itself (U14.canon, nested in the if-branch of into_tableau, with divide_matrix_row_by: scaling rows by their singleton entries keeps the solution set and the same objective identity holds); "
             "and the point read off a tableau is the basic solution, which solves the system of a canonical tableau (U14.vals, ghost theorem lemma_basic_sat). "
             "Anti-cycling (finishing within the iteration limit) is liveness and is NOT decided deductively; a BOUNDED search runs the cycling examples of Chvatal and Beale under every order of their structural columns, with and without an improving extra column, through the real driver (U14.drive).",
     "note": "Trusted: prelude/f64_layer.rs (exact real arithmetic on finite floats; powi by a one-entry table). Which of several rows tied within the tolerance leaves is not constrained (any of them satisfies the contract). A Kani harness re-checks find_h under CBMC's IEEE float model in the thorough tier (bounded). "
